@@ -1,6 +1,6 @@
 (** C04 — whole-history simulation theorems, assembled from the per-heap refinement lemmas. *)
 From Coq Require Import Permutation Lia.
-From Algo.C04 Require Import Model Spec ProofsCommon ProofsBinary.
+From Algo.C04 Require Import Model Spec ProofsCommon ProofsBinary ProofsBinomial.
 
 Section Top.
   Context {K V : Type} (cmp : K -> K -> Z) (eqv : V -> V -> bool) (TO : TotalOrder K cmp).
@@ -34,6 +34,45 @@ Section Top.
     - discriminate.
     - intros i h Hi. unfold p_init in Hi. rewrite nth_error_map in Hi.
       destruct (nth_error sizes i); [|discriminate]. injection Hi as <-. apply binv_new.
+    - unfold plive, p_init. rewrite map_map. exact Hws.
+  Qed.
+
+  (** ** binomial heap *)
+  Definition hinv_bnm (h : heap K V) : Prop := match h with HN b => ninv cmp b | _ => False end.
+  Definition hbag_bnm (h : heap K V) : bag K V := match h with HN b => nbag b | _ => [] end.
+
+  Lemma act_ok_bnm h a :
+    hinv_bnm h -> not_merge a ->
+    exists h' r, h_act K V cmp eqv a h = Ok (h', r) /\ hinv_bnm h' /\
+                 spec_step K V cmp eqv (hbag_bnm h) a r (hbag_bnm h').
+  Proof.
+    destruct h as [|b|]; simpl; try tauto. intros Hi Hn.
+    destruct (n_act_ok cmp eqv TO b a Hi Hn) as (b' & r & -> & Hi' & Hs). simpl.
+    exists (HN b'), r. auto.
+  Qed.
+
+  Lemma merge_ok_bnm h hh :
+    hinv_bnm h -> hinv_bnm hh ->
+    exists h', h_merge K V cmp h hh = Some h' /\ hinv_bnm h' /\
+               Permutation (hbag_bnm h') (hbag_bnm h ++ hbag_bnm hh).
+  Proof.
+    destruct h as [|a|], hh as [|b|]; simpl; try tauto. intros Ha Hb.
+    destruct (n_merge_heaps_ok cmp TO a b Ha Hb) as [Hi Hp].
+    eexists. split; [reflexivity|]. simpl. auto.
+  Qed.
+
+  Theorem binomial_simulates sizes ops :
+    well_scoped K V true (all_live sizes) ops = true ->
+    accepts K V cmp eqv (empty_bags sizes) ops (run K V cmp eqv Binomial sizes ops).
+  Proof.
+    intros Hws. unfold run.
+    replace (empty_bags sizes) with (pabs hbag_bnm (p_init K V Binomial sizes))
+      by (unfold pabs, p_init, empty_bags; rewrite map_map; reflexivity).
+    apply pool_simulation with (mergeable := true) (hinv := hinv_bnm).
+    - apply act_ok_bnm.
+    - intros _. apply merge_ok_bnm.
+    - intros i h Hi. unfold p_init in Hi. rewrite nth_error_map in Hi.
+      destruct (nth_error sizes i); [|discriminate]. injection Hi as <-. apply ninv_new.
     - unfold plive, p_init. rewrite map_map. exact Hws.
   Qed.
 End Top.
